@@ -6,7 +6,9 @@ import (
 	"fmt"
 	"io"
 	"os"
+	"os/exec"
 	"reflect"
+	"runtime/debug"
 	"sort"
 	"strconv"
 	"strings"
@@ -426,7 +428,21 @@ func trunc(s string) string {
 	return s
 }
 
+type callFunc func(e encoder, x, px any, o *ojg.Options) (raw string, t tree, r, msg string)
+
+var marshal0Enc = encoder{"oj.Marshal0", true, func(x, px any, o *ojg.Options) (string, *tree, error) {
+	b, err := oj.Marshal(x)
+	if err != nil {
+		return "", nil, err
+	}
+	return jsonOut(string(b))
+}}
+
 func runCase(c *caseSpec, o optSpec) (event, map[string]string) {
+	return runCaseWith(c, o, callEncoder)
+}
+
+func runCaseWith(c *caseSpec, o optSpec, call callFunc) (event, map[string]string) {
 	ev := event{Case: *c, O: o, Go: goCompat(o), Gj: outGroup{As: []string{"encoding/json"}, R: "skip", Tree: leaf("none", "")}}
 	ev.Case.O = &o
 	raws := map[string]string{}
@@ -454,7 +470,7 @@ func runCase(c *caseSpec, o optSpec) (event, map[string]string) {
 		g.As = append(g.As, name)
 	}
 	for _, e := range encoders {
-		raw, t, r, msg := callEncoder(e, x, px, &opt)
+		raw, t, r, msg := call(e, x, px, &opt)
 		add(e.name, t, r, msg)
 		if e.json && raw != "" {
 			raws[e.name] = raw
@@ -462,13 +478,7 @@ func runCase(c *caseSpec, o optSpec) (event, map[string]string) {
 	}
 	if ev.Go {
 		// oj.Marshal without options uses the Go-compatible defaults
-		raw, t, r, msg := callEncoder(encoder{"oj.Marshal0", true, func(x, px any, o *ojg.Options) (string, *tree, error) {
-			b, err := oj.Marshal(x)
-			if err != nil {
-				return "", nil, err
-			}
-			return jsonOut(string(b))
-		}}, x, px, &opt)
+		raw, t, r, msg := call(marshal0Enc, x, px, &opt)
 		add("oj.Marshal0", t, r, msg)
 		if raw != "" {
 			raws["oj.Marshal0"] = raw
@@ -487,6 +497,109 @@ func runCase(c *caseSpec, o optSpec) (event, map[string]string) {
 	return ev, raws
 }
 
+// ---------------------------------------------------------------- isolation of recursive types (a fatal error kills the process)
+
+type childOut struct {
+	Ev   *event            `json:"ev,omitempty"`
+	Raws map[string]string `json:"raws,omitempty"`
+	Raw  string            `json:"raw"`
+	T    tree              `json:"t"`
+	R    string            `json:"r"`
+	M    string            `json:"m"`
+}
+
+func allEncoders() []encoder { return append(append([]encoder{}, encoders...), marshal0Enc) }
+
+// execChild: `execchild all` runs one (case, options) with every encoder, `execchild <i>` one encoder of it.
+func execChild(args []string) {
+	lines := readLines(os.Stdin)
+	var c caseSpec
+	if err := json.Unmarshal(lines[0], &c); err != nil || c.O == nil {
+		panic(fmt.Sprint("execchild: bad case ", err))
+	}
+	debug.SetMaxStack(32 << 20) // unbounded recursion ends this child quickly
+	warmUp()
+	if args[0] == "all" {
+		ev, raws := runCase(&c, *c.O)
+		os.Stdout.Write(mustJSON(childOut{Ev: &ev, Raws: raws}))
+		return
+	}
+	i, _ := strconv.Atoi(args[0])
+	rv, err := buildValue(&c)
+	if err != nil {
+		panic(err)
+	}
+	opt := c.O.options()
+	raw, t, r, m := callEncoder(allEncoders()[i], rv.Interface(), rv.Addr().Interface(), &opt)
+	os.Stdout.Write(mustJSON(childOut{Raw: raw, T: t, R: r, M: m}))
+}
+
+func spawn(arg string, line []byte) (out []byte, died string) {
+	self, _ := os.Executable()
+	cmd := exec.Command(self, "execchild", arg)
+	cmd.Stdin = bytes.NewReader(line)
+	var ob, eb bytes.Buffer
+	cmd.Stdout, cmd.Stderr = &ob, &eb
+	if err := cmd.Start(); err != nil {
+		fmt.Fprintln(os.Stderr, "execchild does not start:", err)
+		os.Exit(2)
+	}
+	done := make(chan error, 1)
+	go func() { done <- cmd.Wait() }()
+	select {
+	case err := <-done:
+		if err != nil || ob.Len() == 0 {
+			return nil, "fatal: the process died: " + trunc(fatalLine(eb.String()))
+		}
+	case <-time.After(5 * time.Second):
+		_ = cmd.Process.Kill()
+		<-done
+		return nil, "fatal: no return within 5s"
+	}
+	return ob.Bytes(), ""
+}
+
+func fatalLine(s string) string {
+	for _, pre := range []string{"fatal error", "panic", "runtime:"} {
+		for _, l := range strings.Split(s, "\n") {
+			if strings.HasPrefix(l, pre) {
+				return l
+			}
+		}
+	}
+	return strings.TrimSpace(s)
+}
+
+// runIsolated runs one (case, options) in a child process; if that dies or hangs every encoder is run in a child of its own
+// so that the death is attributed to the encoders that cause it (r = fail, m = fatal: ...).
+func runIsolated(c *caseSpec, o optSpec) (event, map[string]string) {
+	cc := *c
+	cc.O = &o
+	line := mustJSON(cc)
+	if out, died := spawn("all", line); died == "" {
+		var co childOut
+		if err := json.Unmarshal(out, &co); err == nil && co.Ev != nil {
+			co.Ev.Case = cc
+			return *co.Ev, co.Raws
+		}
+	}
+	idx := map[string]int{}
+	for i, e := range allEncoders() {
+		idx[e.name] = i
+	}
+	return runCaseWith(c, o, func(e encoder, x, px any, opt *ojg.Options) (string, tree, string, string) {
+		out, died := spawn(strconv.Itoa(idx[e.name]), line)
+		if died != "" {
+			return "", leaf("none", ""), "fail", died
+		}
+		var co childOut
+		if err := json.Unmarshal(out, &co); err != nil {
+			return "", leaf("none", ""), "fail", "fatal: unreadable child output"
+		}
+		return co.Raw, co.T, co.R, co.M
+	})
+}
+
 // warmUp puts the process-wide struct-info caches of the library types into a fixed state, so that the result for a
 // case does not depend on which cases ran before it in the same process (replays run one case per process).
 func warmUp() {
@@ -498,6 +611,9 @@ func warmUp() {
 	for _, empty := range []bool{false, true} {
 		for _, k := range names {
 			kd := kinds[k]
+			if kd.isolate {
+				continue // recursive types are only touched in child processes
+			}
 			t := kd.typ
 			if t.Kind() == reflect.Ptr {
 				t = t.Elem()
